@@ -158,6 +158,10 @@ func VerifFaults() {
 	got, gerr := w.GetCheckpoint(logID)
 	if accepted {
 		rt.Assert(gerr == nil && rt.Eq(got, out), "C07/accepted-implies-read-returns-it")
+		if rt.Prop("C01") {
+			// a cosignature that was handed out is the state later requests are checked against
+			rt.Assert(gerr == nil && rt.Eq(got, out), "C01/handed-out-cosignature-is-the-witness-state")
+		}
 	} else {
 		// nothing was committed
 		if hadPrev {
@@ -206,6 +210,10 @@ func VerifFaults() {
 	if uerr2 == nil && has {
 		verifC01Core(c, 0, cur, old2, next2, proof2, evs2)
 	}
+	if rt.Prop("C01") && uerr2 == nil && accepted {
+		// consistent with the checkpoint cosigned in step 1, whatever became of it in the store
+		verifC01Core(c, 0, out, old2, next2, proof2, evs2)
+	}
 	if rt.Count("SignFail") == 0 {
 		verifC09(c, 0, has, cur, old2, next2, proof2, out2, uerr2, evs2)
 	}
@@ -234,6 +242,9 @@ func VerifCrash() {
 	rt.ResetEvents()
 	rt.Boundary = 0
 	rt.CrashAt = rt.Choose(rt.Param("boundaries", 12) + 1)
+	// dbfaults=1: driver operations of the update may also fail before the kill (a failed COMMIT
+	// followed by a crash is a history like any other)
+	rt.DBFaults = rt.Param("dbfaults", 0) == 1
 	var out []byte
 	acked := false
 	crashed := rt.RunCrashable(func() {
@@ -243,6 +254,7 @@ func VerifCrash() {
 		}
 	})
 	rt.CrashAt = 0
+	rt.DBFaults = false
 	evs := rt.Events
 	reached := rt.Boundary
 	if !crashed && rt.CrashAt != 0 {
